@@ -83,6 +83,8 @@ func main() {
 		os.Exit(cmdCheck(os.Args[2:]))
 	case "list":
 		os.Exit(cmdList(os.Args[2:]))
+	case "frame":
+		os.Exit(cmdFrame(os.Args[2:]))
 	default:
 		fmt.Println("unknown command")
 		os.Exit(2)
